@@ -74,3 +74,9 @@ claim("C08", "exploration", "deviation-bounded exhaustive enumeration of abstrac
       "altlocs, repeated names, sub-0.5 A neighbours, HETATM, long names, absent occupancy, both null markers, label != auth - emitted as PDB and mmCIF and "
       "read for every requested model: only the requested model's atoms, each once, highest-occupancy copy, clash rule, residues in file order with exact identity and coordinates.",
       "Absent occupancy combined with duplicates/close atoms is executed but not judged; ties in occupancy admit either copy.", "DESIGN.md 3/C08")
+
+claim("C15", "exploration", "deviation-bounded exhaustive enumeration of atom tables and corpus structures, four-way differential reading on the real code against the abstract table",
+      "Every table within 1 (quick, plus a reduced set of pairs) / 2 (thorough) deviations of a 14-nucleotide duplex and every single-conformer corpus "
+      "structure, emitted in both formats by an independent emitter: both reader generations report the residues, atoms and coordinates of the abstract "
+      "table, agree with the O3'-P < 2.4 A reference on connectivity (thresholds bracketed at 2.39/2.395/2.405/2.41) and on connected segments, and agree on |chi| to 1e-9.",
+      "One model, no altlocs; chi by magnitude only; structures not representable as PDB are read as mmCIF only.", "DESIGN.md 3/C15")
